@@ -139,6 +139,11 @@ func (e *Env) ident(name string) Val {
 	if v, ok := e.vars[name]; ok {
 		return v
 	}
+	if name == "idx" && e.locals != nil {
+		if v, ok := e.locals("idx"); ok {
+			return v
+		}
+	}
 	if name == "nil" {
 		return Val{T: "0", Ty: tRef}
 	}
